@@ -52,10 +52,13 @@ structure ASrc where
   closedSeen : Bool := false
   deadline : Option Int := none
   armed : Bool := false                  -- an arming exists that has not fired or been cancelled
+  armedInDisp : Bool := false            -- the current arming was created after the current dispatch's wait
+  goneOutside : Bool := false            -- it was removed / disabled while it was *not* processing events itself
   touched : Bool := false                -- removed / disabled / re-registered during the current dispatch
   dueAtBegin : Bool := false             -- had a pending cause when the current dispatch began waiting
   cbThisDispatch : Nat := 0
   bsSeen : Nat := 0
+  synthSeen : Bool := false              -- its before_sleep produced a synthetic event in the current dispatch
   bheSeen : Nat := 0
   lifeDue : Bool := false                -- lifecycle hooks expected in the current dispatch
   deriving Repr
@@ -94,6 +97,9 @@ structure T where
   issued : List Tok := []                -- every registration token handed out so far
   f12 : Bool := false                    -- known finding F12 triggered: a registration token was handed out a second time (generation wrap)
   f15 : Bool := false                    -- known finding F15 triggered (see onExec): later C16 clauses are attributed to it
+  disablers : List Nat := []             -- sources that were disabled / enabled at some point (C07: nobody else is disturbed)
+  postActors : List Nat := []            -- sources that had a non-Continue post action or a deferred request (C09: applied to no other)
+  anyFailure : Bool := false             -- an insertion, a handle operation or an event processing failed (C15: the rest keeps working)
   ended : Bool := false                  -- the case is over: the loop itself is being dropped
   wf : Bool := true                      -- documented exclusions respected so far
   idx : Nat := 0
@@ -113,6 +119,21 @@ def T.flag (t : T) (p : PropId) (why : String) : T :=
 
 def T.flagIf (t : T) (c : Bool) (p : PropId) (why : String) : T := if c then t.flag p why else t
 
+/-- A source `j` that nobody touched was disturbed (lost an event, lost its registration, or was called
+    back without a cause).  Besides the clause that noticed it, this breaks
+    C07 "disabling or enabling one source never disturbs any other" when another source was disabled/enabled,
+    C09 "no post-action is ever applied to a different source … or carried over to a later event" when
+        another source had a post action, and
+    C15 "every other source keeps working and loses none of its events" / "behaves as if the call had not
+        been made" when something failed earlier.
+    (F15 is a disturbance through a shared fd by a handle call; it is not a post action nor a failure.) -/
+def T.disturbed (t : T) (j : Nat) (what : String) : T :=
+  let t := t.flagIf (t.disablers.any (· != j)) .C07 s!"{what} — after other sources ({t.disablers.filter (· != j)}) were disabled/enabled: a source nobody touched was disturbed"
+  let t := t.flagIf (t.postActors.any (· != j) && !t.f15) .C09 s!"{what} — after post actions of other sources ({t.postActors.filter (· != j)}): a post action reached a source that did not ask for it"
+  t.flagIf (t.anyFailure && !t.f15) .C15 s!"{what} — after a failed insertion / operation / event processing: the failure did not leave the other sources intact"
+
+def addActor (l : List Nat) (k : Nat) : List Nat := if l.contains k then l else l ++ [k]
+
 def T.counter (t : T) (fd : Nat) : Nat := (alookup t.counters fd).getD 0
 
 /-- does source `a` have a pending cause the next wait must report? (simple causes only) -/
@@ -126,7 +147,7 @@ def pendingCause (t : T) (k : Nat) (a : ASrc) : Bool :=
 
 /-- the status change of a completed (not deferred) removal / disable -/
 def T.markGone (t : T) (k : Nat) (st : Status) : T :=
-  t.modSrc k fun a => { a with status := st, touched := true,
+  t.modSrc k fun a => { a with status := st, touched := true, goneOutside := a.goneOutside || t.running != some k,
                                armed := false, tok := if st == .absent then none else a.tok }
 
 /-- resolve and apply what `k` asked for when its event processing finishes (C09) -/
@@ -134,9 +155,11 @@ def T.applyPost (t : T) (k : Nat) (r : Option PA) : T :=
   let deferred := t.deferred
   let t := { t with deferred := none, running := none }
   match r with
-  | none => t                                   -- an error applies nothing
+  | none => { t with anyFailure := true }       -- an error applies nothing
   | some ret =>
     let resolved := if ret == .Continue then deferred.getD .Continue else ret
+    let t := if resolved != .Continue || deferred.isSome then { t with postActors := addActor t.postActors k } else t
+    let t := if resolved == .Disable then { t with disablers := addActor t.disablers k } else t
     let nsub := match t.src k with | some a => if a.kind == .custom then a.nsub else 0 | none => 0
     let gone := match t.src k with | some a => a.status == .absent | none => true
     let subs := List.range nsub
@@ -146,7 +169,8 @@ def T.applyPost (t : T) (k : Nat) (r : Option PA) : T :=
       if gone && nsub > 0 then { t with expectRegs := some (k, subs.map fun j => (.unregister, j)) } else t
     | .Reregister =>
       let t := t.modSrc k fun a => { a with touched := true, dirty := false, rr := a.ir, rw := a.iw, rmode := a.mode, disarmed := false,
-                                            armed := if a.kind == .timer && a.status == .enabled then a.deadline.isSome else a.armed }
+                                            armed := (if a.kind == .timer && a.status == .enabled then a.deadline.isSome else a.armed),
+                                            armedInDisp := if a.kind == .timer && a.status == .enabled then t.inDispatch else a.armedInDisp }
       if nsub > 0 then
         { t with expectRegs := some (k, (subs.map fun j => (.reregister, j)) ++
                                         (if gone then subs.map fun j => (.unregister, j) else [])) }
@@ -228,8 +252,8 @@ def onExec (t : T) (o : COp) : T :=
 def onOpRes (t : T) (o : COp) (r : OpRes) : T :=
   let t := match r, isTokenOp o with
     | .err (.io _), some k | .err .other, some k =>
-      { (t.modSrc k fun a => { a with unknown := true }) with regFailed := true }
-    | .err (.io _), none => { t with regFailed := true }
+      { (t.modSrc k fun a => { a with unknown := true }) with regFailed := true, anyFailure := true }
+    | .err (.io _), none => { t with regFailed := true, anyFailure := true }
     | _, _ => t
   match o, r with
   | .send k _, .ok => t.modSrc k fun a => a   -- the value is recorded below (needs the payload)
@@ -242,14 +266,17 @@ def onOpRes (t : T) (o : COp) (r : OpRes) : T :=
     | some a =>
       if a.status == .absent then t.flag .C06 s!"disable of removed source {k} returned Ok"
       else if t.running == some k then { t with deferred := some .Disable }
-      else t.markGone k .disabled
+      else { (t.markGone k .disabled) with disablers := addActor t.disablers k }
     | none => t
   | .enable k, .ok =>
     match t.src k with
     | some a =>
       if a.status == .absent then t.flag .C06 s!"enable of removed source {k} returned Ok"
-      else t.modSrc k fun a => { a with status := .enabled, dirty := false, touched := true, rr := a.ir, rw := a.iw, rmode := a.mode,
-                                        disarmed := false, armed := if a.kind == .timer then a.deadline.isSome else a.armed }
+      else
+        let t := t.modSrc k fun a => { a with status := .enabled, goneOutside := false, dirty := false, touched := true, rr := a.ir, rw := a.iw, rmode := a.mode,
+                                              disarmed := false, armed := (if a.kind == .timer then a.deadline.isSome else a.armed),
+                                              armedInDisp := if a.kind == .timer then t.inDispatch else a.armedInDisp }
+        { t with disablers := addActor t.disablers k }
     | none => t
   | .update k, .ok =>
     match t.src k with
@@ -257,7 +284,8 @@ def onOpRes (t : T) (o : COp) (r : OpRes) : T :=
       if a.status == .absent then t.flag .C06 s!"update of removed source {k} returned Ok"
       else if t.running == some k then { t with deferred := some .Reregister }
       else t.modSrc k fun a => { a with touched := true, dirty := false, rr := a.ir, rw := a.iw, rmode := a.mode, disarmed := false,
-                                        armed := if a.kind == .timer && a.status == .enabled then a.deadline.isSome else a.armed }
+                                        armed := (if a.kind == .timer && a.status == .enabled then a.deadline.isSome else a.armed),
+                                        armedInDisp := if a.kind == .timer && a.status == .enabled then t.inDispatch else a.armedInDisp }
     | none => t
   | .disable k, .err .invalidToken | .enable k, .err .invalidToken | .update k, .err .invalidToken =>
     match t.src k with
@@ -301,7 +329,7 @@ def onObs (t : T) (x : Obs) : T :=
   | .exec o => onExec t o
   | .top (.dispatch) =>
     let srcs := t.srcs.map fun (k, a) =>
-      (k, { a with touched := false, cbThisDispatch := 0, bsSeen := 0, bheSeen := 0,
+      (k, { a with touched := false, armedInDisp := false, cbThisDispatch := 0, bsSeen := 0, synthSeen := false, bheSeen := 0,
                    lifeDue := a.life && a.status == .enabled && !a.unknown,
                    dueAtBegin := a.status == .enabled && !a.unknown && pendingCause t k a })
     -- documented: a changed parameter takes effect through `update`; dispatching in between is not judged
@@ -317,11 +345,12 @@ def onObs (t : T) (x : Obs) : T :=
     | _, _ => t
   | .ins k (.ok tok) =>
     let t := if t.issued.contains tok then { t with f12 := true } else { t with issued := tok :: t.issued }
-    t.modSrc k fun a => { a with status := .enabled, tok := some tok, touched := true, everInserted := true, dirty := false, rr := a.ir, rw := a.iw,
-                                 rmode := a.mode, disarmed := false, armed := a.kind == .timer && a.deadline.isSome }
+    t.modSrc k fun a => { a with status := .enabled, goneOutside := false, tok := some tok, touched := true, everInserted := true, dirty := false, rr := a.ir, rw := a.iw,
+                                 rmode := a.mode, disarmed := false, armed := a.kind == .timer && a.deadline.isSome,
+                                 armedInDisp := t.inDispatch }
   | .ins k (.err _) =>
     let t := if t.inDispatch then t else { t with insFailed := some k }
-    let t := { t with regFailed := true }
+    let t := { t with regFailed := true, anyFailure := true }
     t.modSrc k fun a => { a with status := .absent, tok := none }
   | .ins _ .nosource => t
   | .pe k =>
@@ -339,13 +368,19 @@ def onObs (t : T) (x : Obs) : T :=
     | some a =>
       -- a parameter changed without `update`: outside the documented protocol, not judged
       let t := if a.dirty then { t with wf := false } else t
-      let t := t.flagIf (a.status == .absent && t.running != some k && !a.unknown) .C06 s!"callback of removed source {k}"
-      let t := t.flagIf (a.status == .disabled && t.running != some k && !a.unknown) .C07 s!"callback of disabled source {k}"
+      -- the only latitude: a source that removed / disabled itself during its current event processing
+      let own := t.running == some k && !a.goneOutside
+      let t := t.flagIf (a.status == .absent && !own && !a.unknown) .C06 s!"callback of removed source {k}"
+      let t := t.flagIf (a.status == .disabled && !own && !a.unknown) .C07 s!"callback of disabled source {k}"
+      let t := t.flagIf (a.status != .enabled && !own && !a.unknown) .C01
+        s!"callback of source {k} while it is not inserted and enabled (and it is not finishing its own batch)"
       let t := t.flagIf (!t.inDispatch) .C01 s!"callback of source {k} outside a dispatch"
       let t := t.modSrc k fun a => { a with cbThisDispatch := a.cbThisDispatch + 1 }
       match p with
       | .unit =>
-        let t := t.flagIf (a.kind == .ping && a.pings == 0) .C01 s!"ping source {k} called back without a ping"
+        let spurious := a.kind == .ping && a.pings == 0
+        let t := t.flagIf spurious .C01 s!"ping source {k} called back without a ping"
+        let t := if spurious then t.disturbed k s!"ping source {k} called back without a ping" else t
         t.modSrc k fun a => { a with pings := 0 }
       | .msg v =>
         match a.sent with
@@ -353,7 +388,8 @@ def onObs (t : T) (x : Obs) : T :=
           let t := t.flagIf (v != w) .C01 s!"channel {k} delivered {v} but {w} was sent first"
           let t := t.flagIf a.closedSeen .C01 s!"channel {k} delivered a message after Closed"
           t.modSrc k fun a => { a with sent := rest }
-        | [] => t.flag .C01 s!"channel {k} delivered {v} which was never sent or already delivered"
+        | [] => (t.flag .C01 s!"channel {k} delivered {v} which was never sent or already delivered").disturbed k
+                  s!"channel {k} delivered {v} which was never sent or already delivered"
       | .closed =>
         let t := t.flagIf (a.senders > 0 || !a.sent.isEmpty) .C01 s!"channel {k} reported Closed with senders or messages left"
         let t := t.flagIf a.closedSeen .C01 s!"channel {k} reported Closed twice"
@@ -362,25 +398,32 @@ def onObs (t : T) (x : Obs) : T :=
         let t := t.flagIf (a.deadline != some d) .C05 s!"timer {k} fired with deadline {d}, its current deadline is {repr a.deadline}"
         let t := t.flagIf (d > t.now) .C05 s!"timer {k} fired at {t.now}, before its deadline {d}"
         let t := t.flagIf (!a.armed) .C05 s!"timer {k} fired without a fresh arming (fired twice, or after being cancelled)"
+        let t := t.flagIf (a.armed && a.armedInDisp) .C05
+          s!"timer {k} fired in the dispatch whose wait ended before its current arming was made: the expiry belongs to an arming that was cancelled"
         let t := match t.lastDeadlineCb with
           | some prev => t.flagIf (d < prev) .C05 s!"timer {k} (deadline {d}) fired after a timer with deadline {prev} in the same dispatch"
           | none => t
         { (t.modSrc k fun a => { a with armed := false }) with lastDeadlineCb := some d }
       | .ready r _ =>
-        let t := t.flagIf (r && !t.hot.contains a.fd) .C01 s!"fd source {k} reported readable although its fd had nothing to read since the wait began"
+        let spurious := r && !t.hot.contains a.fd
+        let t := t.flagIf spurious .C01 s!"fd source {k} reported readable although its fd had nothing to read since the wait began"
+        let t := if spurious then t.disturbed k s!"fd source {k} reported readable although its fd had nothing to read" else t
         -- a one-shot registration is spent by the event — unless the source was re-registered after the
         -- event had been collected (the callback then sees the earlier registration's event)
         t.modSrc k fun a => if a.rmode == .oneshot && !a.touched then { a with disarmed := true } else a
       | .sub j =>
-        t.flagIf (j ≥ a.nsub) .C01 s!"composite source {k} called back for sub-source {j} it does not have"
+        let t := t.flagIf (j ≥ a.nsub) .C01 s!"composite source {k} called back for sub-source {j} it does not have"
+        let spurious := j < a.nsub && !t.hot.contains (1000 * k + j) && !a.synthSeen
+        let t := t.flagIf spurious .C01 s!"composite source {k} called back for sub-source {j} whose fd had nothing to read since the wait began"
+        if spurious then t.disturbed k s!"composite source {k} called back for sub-source {j} without a cause" else t
   | .cbret k r =>
     match t.src k, r with
-    | some a, .toInstant d => if a.kind == .timer then t.modSrc k fun a => { a with deadline := some d, armed := true } else t
+    | some a, .toInstant d => if a.kind == .timer then t.modSrc k fun a => { a with deadline := some d, armed := true, armedInDisp := true } else t
     | some a, .overflow => if a.kind == .timer then t.modSrc k fun a => { a with deadline := none } else t
     | _, _ => t
   | .reg k kind sub ok =>
     if ok then expectReg t k kind sub
-    else { (t.modSrc k fun a => { a with unknown := true }) with regFailed := true, expectRegs := none }
+    else { (t.modSrc k fun a => { a with unknown := true }) with regFailed := true, anyFailure := true, expectRegs := none }
   | .bs k b =>
     match t.src k with
     | none => t
@@ -388,8 +431,8 @@ def onObs (t : T) (x : Obs) : T :=
       let t := t.flagIf (!a.lifeDue && !a.unknown) .C14 s!"before_sleep called on source {k} which is not an inserted, enabled lifecycle source"
       let t := t.flagIf (a.bsSeen ≥ 1) .C14 s!"before_sleep called twice on source {k} in one dispatch"
       let t := t.flagIf t.sawPe .C14 s!"before_sleep of source {k} after event processing began"
-      let t := t.modSrc k fun a => { a with bsSeen := a.bsSeen + 1 }
-      if b == .err then { t with bsFailed := true } else t
+      let t := t.modSrc k fun a => { a with bsSeen := a.bsSeen + 1, synthSeen := a.synthSeen || (match b with | .synth _ => true | _ => false) }
+      if b == .err then { t with bsFailed := true, anyFailure := true } else t
   | .bhe k evs =>
     match t.src k with
     | none => t
@@ -432,9 +475,10 @@ def onObs (t : T) (x : Obs) : T :=
         -- C02: whoever had a pending cause when the wait began was called back
         t.srcs.foldl (fun (t : T) ((j, a) : Nat × ASrc) =>
           if a.dueAtBegin && !a.touched && a.cbThisDispatch == 0 then
-            t.flag .C02 s!"source {j} had a pending cause when the dispatch began and was not called back"
+            (t.flag .C02 s!"source {j} had a pending cause when the dispatch began and was not called back").disturbed j
+              s!"source {j} had a pending cause when the dispatch began and was not called back"
           else t) t
-      | some _ => t
+      | some _ => { t with anyFailure := true }
     { t with inDispatch := false, idleDue := none, idlePhase := false, running := none }
   | .st s =>
     -- C06: a removed source that nobody else holds is released by the end of the operation / dispatch
@@ -467,7 +511,12 @@ def onObs (t : T) (x : Obs) : T :=
     let extra := actual.filter fun x => !expected.contains x
     let tag := ""
     let t := match missing.head? with
-      | some (tk, _, _, _) => t.flag .C16 s!"{tag}the poller lacks the registration {tk.id}.{tk.ver}.{tk.sub} of an enabled source (or holds it with another interest/mode)"
+      | some (tk, _, _, _) =>
+        let t := t.flag .C16 s!"{tag}the poller lacks the registration {tk.id}.{tk.ver}.{tk.sub} of an enabled source (or holds it with another interest/mode)"
+        let owner := t.srcs.find? fun (p : Nat × ASrc) => match p.2.tok with | some o => o.id == tk.id && o.ver == tk.ver && p.2.status == .enabled | none => false
+        match owner with
+        | some (j, _) => t.disturbed j s!"the poller lacks the registration {tk.id}.{tk.ver}.{tk.sub} of enabled source {j}"
+        | none => t
       | none => t
     match extra.head? with
     | some (tk, _, _, _) => t.flag .C16 s!"{tag}the poller holds a stale or unexpected registration {tk.id}.{tk.ver}.{tk.sub}"
